@@ -172,7 +172,8 @@ pub(super) mod udp {
         type Error = anyhow::Error;
 
         fn encode(&mut self, (content, addr): DatagramPacket, dst: &mut BytesMut) -> anyhow::Result<()> {
-            self.session.increase_packet_id();
+            // a session ends rather than wrap around and reuse a packet id (the id is part of the AEAD nonce)
+            self.session.packet_id = self.session.packet_id.checked_add(1).ok_or_else(|| anyhow!("[udp] packet id exhausted; session={}", self.session))?;
             self.codec.encode((content, addr, self.session.clone()), dst)
         }
     }
